@@ -254,6 +254,54 @@ def only_stable_reordering(R, rep, rule="R4"):
         rep.unresolved(rule, "canon-calls", "no call on the transaction list found in the canonicaliser (the sort was expected)")
 
 
+def scans_act_by_date(R, rep, rule="R1"):
+    """R1 (also): what the 30-day producer carries from one line of the timeline to the next (a flag, an accumulator, a claim) is written
+    only under a test on that line's DATE relative to the sale — the window test of the main loop, the `date == sale date` test of the
+    sale-day scan. A loop over the list that sets state for ANY line of the security ("this ticker has a SPLIT somewhere") makes an
+    earlier disposal's legs depend on lines appended years later (seeded change C12-s10)."""
+    from mir import parse_callee, show, place_proj, is_decimal_arith_assign
+    from roles import guards_of
+    from flow import root_of_operand
+    F = R.F
+    b = R.leg("BedAndBreakfast")[0]
+    tb = R.terms(b, 0)
+    n, bad = 0, []
+    for h, bl in b.loops():
+        outer = lambda l: any(d[1] not in bl for d in b.defs().get(l, [])) or (1 <= l <= b.argc)
+        effects = []
+        for i, si, st in b.assigns():
+            l = st["lhs"]["l"]
+            if i in bl and not place_proj(st["lhs"]) and b.local_name(l) and outer(l):
+                effects.append((i, b.local_name(l), st.get("sp")))
+        for i, t in b.calls():
+            if i not in bl or not t.get("args"):
+                continue
+            if not (is_decimal_arith_assign(t["callee"]) or t["callee"] in F.bodies):
+                continue
+            for k, a in enumerate(t["args"]):
+                aty = (t.get("aty") or [])
+                if k < len(aty) and aty[k].replace("&'_ ", "&").startswith("&mut"):
+                    r = root_of_operand(b, a)
+                    if r and b.local_name(r[0]) and outer(r[0]):
+                        effects.append((i, b.local_name(r[0]), t.get("sp")))
+        for i, name, sp in effects:
+            n += 1
+            gs = [show(c) for c, v, w in guards_of(b, tb, i)]
+            if not any(".date" in g or "num_days" in g for g in gs):
+                bad.append((name, b.loc(sp) if sp else b.loc()))
+    seen = set()
+    for name, site in bad:
+        if name in seen:
+            continue
+        seen.add(name)
+        rep.ob(rule, f"lookahead:state-by-date:{name}", False, f"`{name}` is carried across the lines of the timeline and written with no test on the line's date: "
+               "a line anywhere in the list (also one appended later) changes how an earlier disposal is matched", site, key=f"{rule}:lookahead:state-without-date-test:{name}")
+    rep.ob(rule, "lookahead:state-by-date", not bad, f"{n} writes of loop-carried state in the 30-day producer, each under a test on the line's date" if not bad else
+           f"{len(seen)} loop-carried variables are written without a date test", b.loc(), key=f"{rule}:lookahead:state-by-date")
+    if n < 2:
+        rep.unresolved(rule, "lookahead-state", f"only {n} loop-carried writes found in the 30-day producer (the ratio accumulators and the remaining counter were expected)")
+
+
 def run(ctx, rep):
     R = Roles(ctx.F)
     bounded_lookahead(R, rep)
@@ -275,6 +323,7 @@ def run(ctx, rep):
         if v["instance"].startswith("role:"):
             rep.ob("R4", v["instance"], False, v["detail"], v["site"], key="R4:" + v["instance"])
     only_stable_reordering(R, rep)
+    scans_act_by_date(R, rep)
     # an earlier year's dividend figures come from the aggregate filed under that year itself (shared with C04-R6): a summary that is
     # handed the figures of whichever year happens to follow changes when a later disposal is appended (seeded change C12-s8)
     import rules.c04 as c04
